@@ -346,5 +346,55 @@ terminals
 X: 'x';
 """, sentences=(["", "x", "x x"] if algo == "glr" else []), invalid=["y", "x y"] + ([] if algo == "glr" else ["", "x", "x x"]),
         c12="", w=False, w_reason="infinitely ambiguous empty derivations; the LR table keeps 'A: EMPTY' and the parser reports the endless reductions", cyclic=(algo == "glr"))
+# a terminal that is a prefix of a layout item ('/' and '// comment'), in the
+# lookahead set of a reduction whose follow-up state does not take it: the
+# comment glued to the previous token must still be skipped as layout after
+# the reduction (re-lexing after reduce, C12)
+TOK_PREFIX_LAYOUT = """Program: Stmt+;
+Stmt: Name '=' Value
+    | 'print' Expr;
+Expr: Expr '/' Value
+    | Value;
+Value: Num;
+
+Layout: LayoutItem*;
+LayoutItem: WS | Comment;
+
+terminals
+Assign: '=';
+Print: 'print';
+Div: '/';
+Name: /[a-z]+/;
+Num: /\\d+/;
+WS: /\\s+/;
+Comment: /\\/\\/.*/;
+"""
+for algo in ("lr", "glr"):
+    add(f"h_tok_prefix_of_layout_{algo}", None, algo=algo, stem="tok_prefix_of_layout", inline=TOK_PREFIX_LAYOUT,
+        # (after a print expression '/' is expected, so '//' there is two Div
+        # tokens by the lexer's token-before-layout rule: no comments there)
+        sentences=["x = 3 // note\ny = 4\n", "x = 3// note\ny = 4\n", "print 6 / 2 / 1\nx = 1 // c", "x = 1// a\ny = 2// b\n// c\nprint 4/2"],
+        invalid=["x = = 3", "print / 2", "x = 3// note\n= 4", "x = 3 /"],
+        c12="TG", w=False, w_reason="line comments: a gap may end in a comment")
+    # a regex with a top-level alternation: the recognizer must be anchored as a whole
+    add(f"h_regex_alt_{algo}", None, algo=algo, stem="regex_alt", inline="""S: T+;
+terminals
+T: /a|b/;
+""", sentences=["a b a", "b", "ab", "b a"], invalid=["c", "a c b", "cb", "a cb"], c12="TG", w=True, w_reason="single-letter tokens")
+# GLR heads that die in the reducer (lookahead found, no action after the
+# reductions) at a position further than the heads that found no lookahead
+add("h_reducer_dead_glr", None, algo="glr", stem="reducer_dead", inline="""S: P U X | Q U Y | P A B Z;
+U: ABC;
+terminals
+P: 'p';
+Q: 'q';
+X: 'x';
+Y: 'y';
+Z: 'z';
+ABC: 'abc';
+A: 'a';
+B: 'b';
+""", sentences=["p abc x", "q abc y", "p a b z", "pabcx", "p ab z"], invalid=["p abc y", "q abc x", "p abc", "p a b x"],
+    c12="TG", w=False, most_specific=False, longest_match=False, w_reason="lexical ambiguity with tokens of different lengths")
 json.dump({"entries": entries}, open(os.path.join(OUT, "manifest.json"), "w"), indent=1, ensure_ascii=False)
 print(len(entries), "entries")
